@@ -21,7 +21,7 @@ TECHNIQUE = ("runtime monitoring: call-log exactly-once monitor + injective resu
 RULE = ("seeded grids (1-5 args x 1-4 values, int/float/str, three spellings, 0-3 constants, scalar/"
         "tuple/array/list results) x strategy (sequential, shuffle True/int incl. the seeds 0 and 1, held-task submit/apply_async "
         "executors completing in every permutation, ThreadPool, ProcessPool, multiprocessing.Pool, loky "
-        "parallel/num_workers) x split/flat; the largest grids of the quantifier (576-1024 settings) through every executor path, and grids beyond it (2025-2187 settings) sequentially, shuffled and through executors; sweeps following an equal-valued sweep of other types in the same process; value containers handed over as given (list, tuple, range, unsorted ndarray, dict key/value views, generator, map); a case is distinct by (grid shape, value types, spelling, "
+        "parallel/num_workers) x split/flat; the largest grids of the quantifier (576-1024 settings) through every executor path, and grids beyond it (2025-2187 settings) sequentially, shuffled and through executors; sweeps following an equal-valued sweep of other types in the same process; value containers handed over as given (list, tuple, range, unsorted ndarray, dict key/value views, generator, map); grids given as non-dict mappings; a second identical sweep on the caller's thread pool; a case is distinct by (grid shape, value types, spelling, "
         "strategy, completion order observed in the call log, split, flat, kind) and non-trivial when "
         "the grid has >= 2 settings")
 ASSUMPTIONS = [
